@@ -156,8 +156,17 @@ def classify_c01(c, acts, p):
 def mon_c11(case_line, acts):
     out = []
     dead = False
+    # a DISCONNECT of the broker, once read, ends the connection whatever its reason code says
+    bye = {}
+    for ev in Flow(acts).events:
+        if ev[0] == 'rx' and ev[2] == 0xE0:
+            bye.setdefault(ev[4], ev[3])
     for i, a in enumerate(acts):
         st = a.state or {}
+        if i in bye and st.get('conn') == '1' and a.code in NETOPS and a.result not in ('PANIC', 'FUEL'):
+            if st.get('live') != '0' or a.result not in ('err Disconnected', 'err InvalidPacket'):
+                out.append(V('the broker sent DISCONNECT (%s) during action #%d (%d): result %r, live=%s - the handle must be dead'
+                             % (bytes(bye[i]).hex(), i, a.code, a.result, st.get('live'))))
         if a.code == 0 or a.code == 10:
             dead = False
         if st.get('conn') != '1':
@@ -446,6 +455,11 @@ def mon_c19(case_line, acts):
             if ids(st) != ids(prev):
                 out.append(V('refused request at action #%d changed the retained list: %s -> %s'
                              % (i, prev.get('ret'), st.get('ret'))))
+            # a request refused before any I/O leaves the connection as it was: still usable, nothing queued or dropped
+            if not any(e[0] in 'wrf' for e in a.events):
+                for key in ('live', 'conn', 'ctl', 'used', 'sp'):
+                    if key in st and key in prev and st.get(key) != prev.get(key):
+                        out.append(V('refused request at action #%d changed %s: %s -> %s' % (i, key, prev.get(key), st.get(key))))
         prev = st
     return out
 
@@ -711,6 +725,91 @@ def mon_c05(case_line, acts):
     return out
 
 
+def _rel_bytes(x):
+    """the PUBREL a release-list entry `pid:reason:state` stands for"""
+    f = x.split(':')
+    pid, reason = int(f[0]), int(f[1])
+    body = bytes([pid >> 8, pid & 255, reason])      # the client always writes the reason code
+    return bytes([0x62, len(body)]) + body
+
+
+def mon_c05_replay(case_line, acts):
+    """what a connection carries of an unacknowledged packet starts at the packet's first byte: an entry that is partly
+    written (or marked sent) has its first bytes (all its bytes) on the wire of the CURRENT connection; and on a resumed
+    connection nothing new that bears an identifier is written while an entry carried over is still waiting"""
+    out = []
+    wire = bytearray()
+    garbled = False
+    resumed = None          # snapshot at 'ok reconnected': {'ret': {pid: img}, 'rel': {pid: bytes}}
+    whole = set()           # images (DUP cleared) of complete packets written on this connection
+    fl = Flow(acts)
+    tx = {}
+    for ev in fl.events:
+        if ev[0] == 'tx':
+            tx.setdefault(ev[3], []).append(ev[2])
+    reported = set()
+    for i, a in enumerate(acts):
+        if a.code == 0:
+            wire = bytearray()
+            garbled = False
+            resumed = None
+            whole = set()
+        if garbles(a, acts[i - 1].state if i > 0 else None):
+            garbled = True
+        for e in a.events:
+            if e[0] == 'w' and e[2]:
+                wire += bytes.fromhex(e[3])
+        st = a.state
+        if garbled or not st:
+            continue
+        after_ret = _ret_bytes(st)
+        after_rel = {int(x.split(':')[0]): _rel_bytes(x) for x in list_field(st.get('rel', '[]')) if x.count(':') >= 2}
+        for p in tx.get(i, []):
+            img = _nodup(p['raw'])
+            if resumed and p['type'] in ('PUBLISH', 'SUBSCRIBE', 'UNSUBSCRIBE', 'MALFORMED') and p['first'] >> 4 in (3, 8, 10) \
+                    and not (p['first'] >> 4 == 3 and (p['first'] >> 1) & 3 == 0) \
+                    and img not in resumed['ret'].values():
+                waiting = [pid for pid, im in resumed['ret'].items() if after_ret.get(pid) == im and im not in whole] + \
+                          [pid for pid, im in resumed['rel'].items() if after_rel.get(pid) == im and im not in whole]
+                if waiting and ('new', i) not in reported:
+                    reported.add(('new', i))
+                    out.append(V('a new identifier-bearing packet (%s) is written at action #%d on a resumed connection before '
+                                 'the retransmission of identifier(s) %s' % (p['raw'].hex()[:40], i, waiting)))
+            whole.add(img)
+        if a.code == 0 and a.result == 'ok reconnected':
+            resumed = {'ret': dict(after_ret), 'rel': dict(after_rel)}
+        # partly written / sent entries: their bytes are on this connection's wire
+        w = bytes(wire)
+        entries = []
+        for x in list_field(st.get('ret', '[]')):
+            f = x.split(':')
+            if len(f) >= 5 and f[4] not in ('', '!'):
+                entries.append((f[0], f[3], bytes.fromhex(f[4])))
+        for x in list_field(st.get('rel', '[]')):
+            f = x.split(':')
+            if len(f) >= 3:
+                entries.append((f[0], f[2], _rel_bytes(x)))
+        for pid, state, img in entries:
+            if state == 'S':
+                k = len(img)
+            elif state.startswith('W') and state[1:].isdigit():
+                k = int(state[1:])
+            else:
+                continue
+            if k == 0 or not img:
+                continue
+            head = img[:k]
+            variants = [head]
+            if img[0] >> 4 == 3:
+                variants = [bytes([head[0] | 8]) + head[1:], bytes([head[0] & ~8]) + head[1:]]
+            if not any(v in w for v in variants) and (pid, 'head') not in reported:
+                reported.add((pid, 'head'))
+                out.append(V('after action #%d the packet with identifier %s counts as written up to byte %d of %d, but the current '
+                             'connection never carried its first bytes: the broker would see the tail of a packet'
+                             % (i, pid, k, len(img))))
+    return out
+
+
 def mon_panic(case_line, acts):
     """the client never panics (the harness catches panics and ends the trace with the PANIC marker)"""
     out = []
@@ -774,6 +873,8 @@ def mon_decode(case_line, impl_out):
     b = bytes(int(x) for x in t[2:])
     if impl_out == 'PANIC':
         return [V('the decoder panicked on %s' % b.hex())]
+    if impl_out == 'HANG' or impl_out.startswith('CRASH'):
+        return [V('the decoder %s on %s' % ('never returns' if impl_out == 'HANG' else 'kills the process', b.hex()[:200]))]
     out = []
     typ, flags = b[0] >> 4, b[0] & 15
     if typ == 3:
@@ -818,6 +919,9 @@ def mon_reply(case_line, impl_out):
     """cmd 11: an independent reading of the inbound PUBLISH: the reply goes to the first Response Topic with the
     first Correlation Data followed by the user's properties; the owned copy is exact or an error"""
     t = case_line.split()
+    if t[0] == '11' and (impl_out == 'HANG' or impl_out.startswith('CRASH')):
+        return [V('reading the response target of an inbound PUBLISH %s'
+                  % ('never returns' if impl_out == 'HANG' else 'kills the process (%s)' % impl_out))]
     if t[0] != '11' or impl_out in ('NOTPUB', 'PANIC') or impl_out.startswith('BADCASE'):
         return [V('reply helper panicked')] if impl_out == 'PANIC' else []
     n = int(t[1])
@@ -852,6 +956,9 @@ def mon_reply(case_line, impl_out):
     if f.get('rt') != want_rt or f.get('cd') != want_cd:
         out.append(V('response target differs: got rt=%s cd=%s, inbound has rt=%s cd=%s' % (f.get('rt'), f.get('cd'), want_rt, want_cd)))
     owned = impl_out.split(' owned=')[1] if ' owned=' in impl_out else ''
+    owned_pub = None
+    if ' p=' in owned:
+        owned, owned_pub = owned.split(' p=', 1)
     if rt is None:
         if owned != 'none' or ' reply=none' not in impl_out:
             out.append(V('a reply was offered without a response topic'))
@@ -861,6 +968,9 @@ def mon_reply(case_line, impl_out):
         if owned != want:
             out.append(V('owned response target: got %r, expected %r' % (owned[:80], want[:80])))
         m = impl_out.split(' reply=')[1].split(' owned=')[0]
+        if fits and owned_pub != m:
+            out.append(V('the publication built from the owned response target differs from reply(): %r vs %r'
+                         % ((owned_pub or '')[:80], m[:80])))
         if m.startswith('OK '):
             raw = bytes.fromhex(m.split(' x')[1])
             try:
